@@ -162,13 +162,13 @@ def gen_C12(tier, seed):
             p.write(1, valid=False, either=True)
             progs.append(p.build())
         # bad windows
-        for frm, to in [(3, 3), (2, 1), (5, None), (0, 9)]:
+        for frm, to in [(3, 3), (2, 1), (5, None), (4, None), (0, 9), (3, 9), (3, 5), (0, 5), (2, 6)]:
             p = fringe(f'window-{frm}-{to}-{r_}', 'window')
             minimal(p, rows=4)
             opts = {'from': frm}
             if to is not None:
                 opts['to'] = to
-            p.write(1, valid=False, either=True, **opts)
+            p.write(1, valid=False, mustraise='window', **opts)      # no rows [from, to) exist in a 4-row source
             progs.append(p.build())
     return progs
 
@@ -310,8 +310,8 @@ def gen_C14(tier, seed):
 def gen_C17(tier, seed):
     rng = rng_for('C17', tier, seed)
     progs = []
-    breaches = ['none', 'objname', 'chname', 'setid', 'hdrid', 'signed', 'noframe', 'twoframes', 'nonuniform', 'units',
-                'indextype', 'eqtype', 'eqloc']
+    breaches = ['none', 'objname', 'chname', 'setid', 'hdrid', 'signed', 'noframe', 'twoframes', 'nonuniform', 'nonuniform-spacing',
+                'nonuniform-minmax', 'units', 'indextype', 'eqtype', 'eqloc']
     patterns = ['inside', 'outside', 'nested', 'after-exc', 'decorator', 'after-exit']
     k = 0
     for b in breaches:
@@ -341,15 +341,22 @@ def gen_C17(tier, seed):
             q.file(1, setid='lower case set' if b == 'setid' else 'STORAGE-SET-1')
             lf = q.lf(1, fh_id='header with spaces' if b == 'hdrid' else 'HEADER-1')
             q.origin(lf, name='ORIGIN-1')
-            idx = (np.array([0, 1, 5, 6]) if b == 'nonuniform' else np.arange(4)).astype('float64')
+            idx = (np.array([0, 1, 5, 6]) if b.startswith('nonuniform') else np.arange(4)).astype('float64')
             c1 = q.channel(lf, 'DEPTH', data=idx, units=(S('furlongs') if b == 'units' else EN('Unit', 'METER')))
             c2 = q.channel(lf, 'chan lower' if b == 'chname' else 'VALUES',
                            data=rand_array(rng, 'int16' if b == 'signed' else 'uint16', 4))
             chans = [c1, c2]
             if b == 'noframe':
                 q.channel(lf, 'LONELY', data=rand_array(rng, 'uint8', 4))
+            fkw = {}
+            if b == 'nonuniform-spacing':
+                fkw['spacing'] = rng.choice([F(1.0), SETUP(F(1.0), S('m')), I(1)])
+            if b == 'nonuniform-minmax':
+                fkw['index_min'] = F(0.0)
+                fkw['index_max'] = F(6.0)
+                fkw['direction'] = S('INCREASING')
             q.frame(lf, 'MAIN-FRAME', chans,
-                    index_type=(S('MY-INDEX') if b == 'indextype' else EN('FrameIndexType', 'BOREHOLE_DEPTH')) if b in ('nonuniform', 'indextype') or rng.random() < 0.5 else None)
+                    index_type=(S('MY-INDEX') if b == 'indextype' else EN('FrameIndexType', 'BOREHOLE_DEPTH')) if b.startswith('nonuniform') or b == 'indextype' or rng.random() < 0.5 else None, **fkw)
             if b == 'twoframes':
                 q.frame(lf, 'SECOND-FRAME', [c2])
             if b == 'objname':
@@ -358,7 +365,7 @@ def gen_C17(tier, seed):
                 q.add(lf, 'equipment', 'EQ-1', eq_type=S('Gizmo') if b == 'eqtype' else EN('EquipmentType', 'CABLE'),
                       location=S('Moon') if b == 'eqloc' else EN('EquipmentLocation', 'RIG'))
             q.write(1, valid=(b == 'none' or not inside),
-                    hc_breach=(b if (b in ('signed', 'noframe', 'twoframes', 'nonuniform') and inside) else ''))
+                    hc_breach=(b if (b in ('signed', 'noframe', 'twoframes', 'nonuniform', 'nonuniform-spacing', 'nonuniform-minmax') and inside) else ''))
             if pat == 'decorator':
                 p.steps.append({'op': 'hc_decorated', 'steps': q.steps, 'raise_inside': rng.random() < 0.5})
             else:
@@ -472,11 +479,43 @@ def gen_C20(tier, seed):
                         mine = [r for r in p._ch_arr if r not in before and r not in sum(p._frames.values(), [])]
                         if not mine:
                             mine = [p.channel(lf, 'DATA', data=np.arange(3, dtype='float64'))]
-                        p.frame(lf, 'THE-FRAME', mine)
+                        if cls == 'channel':      # same-named channels cannot share a frame
+                            for j_, ch_ in enumerate(mine):
+                                p.frame(lf, f'THE-FRAME-{j_}', [ch_])
+                        else:
+                            p.frame(lf, 'THE-FRAME', mine)
                     p.write(fid, fname=f'out{proc}.dlis')
                     if proc == 1:
                         p.next_proc()
                 progs.append(p.build())
+    # a rejected add_channel that carried data must not leave the data behind
+    for i, (bad, how) in enumerate([(b, h) for b in ({'units': I(5)}, {'axis': 'WRONGREF'}, 'CAST', {'dimension': L(F(1.5))}) for h in ('struct', 'missing', 'h5')]):
+        p = Prog(f'C20-chdata-{i}', {'kind': 'rejected', 'cls': 'channel', 'pos': 'data-' + how, 'cmpproj': True})
+        for proc in (1, 2):
+            fid = proc
+            p.file(fid, vrl=512)
+            lf = p.lf(fid, lf=proc, fh_id='REJECTED-DATA')
+            p.origin(lf, name='ORIGIN')
+            wrong = p.add(lf, 'comment', 'WRONG-CLASS', text=L(S('x')))
+            stale = p.array(np.arange(7000, 7004, dtype='float64'), aid='stale')
+            if proc == 1:
+                st = {'op': 'add', 'lf': lf, 'cls': 'channel', 'ref': p.ref('x'), 'name': 'RPM', 'kw': {}, 'data': stale}
+                if bad == 'CAST':
+                    st['cast_dtype'] = {'t': 'dtype', 'v': 'int64'}
+                else:
+                    st['rawkw'] = {k_: (L(R(wrong)) if v_ == 'WRONGREF' else v_) for k_, v_ in bad.items()}
+                p.steps.append(st)
+            d = p.channel(lf, 'DEPTH')
+            r = p.channel(lf, 'RPM')
+            p.frame(lf, 'FR', [d, r])
+            da, ra = p.array(np.arange(4, dtype='float64'), aid='depth'), p.array(np.arange(4, dtype='float64') * 3, aid='rpm')
+            if how == 'missing':     # nothing supplied for RPM: the write must fail, with or without the rejected call
+                p.write(fid, route='dict', data_arrays={d: da}, valid=False, mustraise='missing', fname=f'o{proc}.dlis')
+            else:
+                p.write(fid, route=how, data_arrays={d: da, r: ra}, fname=f'o{proc}.dlis')
+            if proc == 1:
+                p.next_proc()
+        progs.append(p.build())
     # a write that raises must leave the specification usable
     for i in range(6 if tier == 'quick' else 40):
         p = Prog(f'C20-failedwrite-{i}', {'kind': 'failedwrite'})
